@@ -81,139 +81,7 @@ func c28(r *core.Run) {
 	w := r.W
 	host := hostMethods(r)
 
-	// ---- R1 wrapper shape
-	ext := w.Named("runtime", "ExternalInterface")
-	if ext == nil {
-		r.Undecided("R1.wrapper", "runtime.ExternalInterface", "type does not resolve")
-		return
-	}
-	wrapPanic := funcOf(mod+"/errors", "WrapPanic")
-	wrappedExt := funcOf(mod+"/interpreter", "WrappedExternalError")
-	for i := 0; i < ext.NumMethods(); i++ {
-		m := ext.Method(i)
-		fn := w.Prog.FuncValue(m)
-		key := core.FuncKey(m)
-		if fn == nil || len(fn.Blocks) == 0 {
-			r.Undecided("R1.wrapper", key, "no body")
-			continue
-		}
-		// (a) WrapPanic(closure) where closure invokes Interface.<same name> with params in order
-		var inner ssa.CallInstruction
-		wp := core.CallsTo(fn, false, wrapPanic)
-		if len(wp) != 1 {
-			r.Bad("R1.wrapper", key, fn.Pos(), "does not call errors.WrapPanic exactly once")
-			continue
-		}
-		mc, _ := wp[0].Common().Args[0].(*ssa.MakeClosure)
-		if mc == nil {
-			r.Bad("R1.wrapper", key, fn.Pos(), "errors.WrapPanic argument is not a function literal")
-			continue
-		}
-		clo := mc.Fn.(*ssa.Function)
-		for _, c := range core.Calls(clo, true) {
-			if o := core.Callee(c); o != nil && c.Common().IsInvoke() && o.Name() == m.Name() {
-				inner = c
-			}
-		}
-		// any other host call outside WrapPanic?
-		outside := false
-		for _, c := range core.Calls(fn, false) {
-			if c.Common().IsInvoke() {
-				outside = true
-			}
-		}
-		if inner == nil {
-			r.Bad("R1.wrapper", key, fn.Pos(), "closure passed to WrapPanic does not call the wrapped Interface."+m.Name())
-			continue
-		}
-		if outside {
-			r.Bad("R1.wrapper", key, fn.Pos(), "calls an interface method outside errors.WrapPanic")
-			continue
-		}
-		// params forwarded unchanged in order
-		okArgs := len(inner.Common().Args) == len(fn.Params)-1
-		if okArgs {
-			for ai, a := range inner.Common().Args {
-				if !forwardsParam(a, fn, ai+1, mc) {
-					okArgs = false
-				}
-			}
-		}
-		if !okArgs {
-			r.Bad("R1.wrapper", key, posOf(inner), "arguments of the wrapped call are not the wrapper's parameters in order")
-			continue
-		}
-		sig := m.Type().(*types.Signature)
-		if !sigReturnsError(sig) {
-			r.OK("R1.wrapper", key, fn.Pos(), "forwards inside WrapPanic (no error result)")
-			continue
-		}
-		// (b) error conversion: each Return is preceded on all paths by a nil test of the error cell, and the non-nil edge stores WrappedExternalError(load cell) to it
-		conv := core.CallsTo(fn, false, wrappedExt)
-		good := len(conv) >= 1
-		var why string
-		if !good {
-			why = "never calls interpreter.WrappedExternalError"
-		}
-		for _, cv := range conv {
-			// result stored to the cell loaded as its argument
-			arg := core.Unwrap(cv.Common().Args[0])
-			ld, ok := arg.(*ssa.UnOp)
-			if !ok || ld.Op != token.MUL {
-				good, why = false, "WrappedExternalError argument is not the error result variable"
-				continue
-			}
-			stored := false
-			if refs := cv.Value().Referrers(); refs != nil {
-				for _, ref := range *refs {
-					if st, ok := ref.(*ssa.Store); ok && st.Addr == ld.X {
-						stored = true
-					}
-				}
-			}
-			if !stored {
-				good, why = false, "result of WrappedExternalError is not assigned back to the error result"
-			}
-			// the conversion lies on the non-nil edge of a test of the same cell, and every return passes that test
-			onEdge := false
-			for _, t := range core.NilTests(fn) {
-				raw := t.If.Cond.(*ssa.BinOp).X
-				u, ok := core.Unwrap(raw).(*ssa.UnOp)
-				if !ok || u.X != ld.X {
-					continue
-				}
-				if core.OnlyViaEdge(cv, t.If.Block(), t.NonNilSucc) && t.NonNilSucc.Dominates(cv.Block()) {
-					// every path from the non-nil successor to a return passes the conversion
-					allConv := true
-					for _, ret := range core.Returns(fn) {
-						if core.Reachable(ret, core.ReachOpts{
-							CutEdge: func(f, to *ssa.BasicBlock) bool { return f == t.If.Block() && to == t.NilSucc },
-							Barrier: func(in ssa.Instruction) bool { return in == cv },
-						}) {
-							allConv = false
-						}
-						// the returned error is the cell
-						for ri := 0; ri < sig.Results().Len(); ri++ {
-							if core.IsErrorType(sig.Results().At(ri).Type()) {
-								rv, ok := core.Unwrap(ret.Results[ri]).(*ssa.UnOp)
-								if !ok || rv.X != ld.X {
-									allConv = false
-								}
-							}
-						}
-					}
-					if allConv {
-						onEdge = true
-					}
-				}
-			}
-			if !onEdge {
-				good, why = false, "a return is reachable with a non-nil host error that did not pass WrappedExternalError"
-			}
-		}
-		// the inner call's error is stored to the same cell
-		r.Check(good, "R1.wrapper", key, fn.Pos(), "WrapPanic + WrappedExternalError on the non-nil edge before every return", why)
-	}
+	externalWrapperRule(r, "R1.wrapper")
 	r.Floor("R1.wrapper", 40)
 
 	// entry points install the wrapper
@@ -441,4 +309,145 @@ func uniq(xs []string) []string {
 	}
 	sort.Strings(out)
 	return out
+}
+
+// externalWrapperRule: every method of runtime.ExternalInterface = errors.WrapPanic{Interface.M(params in order)} with
+// interpreter.WrappedExternalError on the non-nil edge before every return (shared by C28.R1 and C01.R7: an unwrapped
+// host error is classified as an internal error).
+func externalWrapperRule(r *core.Run, rule string) {
+	w := r.W
+	// ---- R1 wrapper shape
+	ext := w.Named("runtime", "ExternalInterface")
+	if ext == nil {
+		r.Undecided(rule, "runtime.ExternalInterface", "type does not resolve")
+		return
+	}
+	wrapPanic := funcOf(mod+"/errors", "WrapPanic")
+	wrappedExt := funcOf(mod+"/interpreter", "WrappedExternalError")
+	for i := 0; i < ext.NumMethods(); i++ {
+		m := ext.Method(i)
+		fn := w.Prog.FuncValue(m)
+		key := core.FuncKey(m)
+		if fn == nil || len(fn.Blocks) == 0 {
+			r.Undecided(rule, key, "no body")
+			continue
+		}
+		// (a) WrapPanic(closure) where closure invokes Interface.<same name> with params in order
+		var inner ssa.CallInstruction
+		wp := core.CallsTo(fn, false, wrapPanic)
+		if len(wp) != 1 {
+			r.Bad(rule, key, fn.Pos(), "does not call errors.WrapPanic exactly once")
+			continue
+		}
+		mc, _ := wp[0].Common().Args[0].(*ssa.MakeClosure)
+		if mc == nil {
+			r.Bad(rule, key, fn.Pos(), "errors.WrapPanic argument is not a function literal")
+			continue
+		}
+		clo := mc.Fn.(*ssa.Function)
+		for _, c := range core.Calls(clo, true) {
+			if o := core.Callee(c); o != nil && c.Common().IsInvoke() && o.Name() == m.Name() {
+				inner = c
+			}
+		}
+		// any other host call outside WrapPanic?
+		outside := false
+		for _, c := range core.Calls(fn, false) {
+			if c.Common().IsInvoke() {
+				outside = true
+			}
+		}
+		if inner == nil {
+			r.Bad(rule, key, fn.Pos(), "closure passed to WrapPanic does not call the wrapped Interface."+m.Name())
+			continue
+		}
+		if outside {
+			r.Bad(rule, key, fn.Pos(), "calls an interface method outside errors.WrapPanic")
+			continue
+		}
+		// params forwarded unchanged in order
+		okArgs := len(inner.Common().Args) == len(fn.Params)-1
+		if okArgs {
+			for ai, a := range inner.Common().Args {
+				if !forwardsParam(a, fn, ai+1, mc) {
+					okArgs = false
+				}
+			}
+		}
+		if !okArgs {
+			r.Bad(rule, key, posOf(inner), "arguments of the wrapped call are not the wrapper's parameters in order")
+			continue
+		}
+		sig := m.Type().(*types.Signature)
+		if !sigReturnsError(sig) {
+			r.OK(rule, key, fn.Pos(), "forwards inside WrapPanic (no error result)")
+			continue
+		}
+		// (b) error conversion: each Return is preceded on all paths by a nil test of the error cell, and the non-nil edge stores WrappedExternalError(load cell) to it
+		conv := core.CallsTo(fn, false, wrappedExt)
+		good := len(conv) >= 1
+		var why string
+		if !good {
+			why = "never calls interpreter.WrappedExternalError"
+		}
+		for _, cv := range conv {
+			// result stored to the cell loaded as its argument
+			arg := core.Unwrap(cv.Common().Args[0])
+			ld, ok := arg.(*ssa.UnOp)
+			if !ok || ld.Op != token.MUL {
+				good, why = false, "WrappedExternalError argument is not the error result variable"
+				continue
+			}
+			stored := false
+			if refs := cv.Value().Referrers(); refs != nil {
+				for _, ref := range *refs {
+					if st, ok := ref.(*ssa.Store); ok && st.Addr == ld.X {
+						stored = true
+					}
+				}
+			}
+			if !stored {
+				good, why = false, "result of WrappedExternalError is not assigned back to the error result"
+			}
+			// the conversion lies on the non-nil edge of a test of the same cell, and every return passes that test
+			onEdge := false
+			for _, t := range core.NilTests(fn) {
+				raw := t.If.Cond.(*ssa.BinOp).X
+				u, ok := core.Unwrap(raw).(*ssa.UnOp)
+				if !ok || u.X != ld.X {
+					continue
+				}
+				if core.OnlyViaEdge(cv, t.If.Block(), t.NonNilSucc) && t.NonNilSucc.Dominates(cv.Block()) {
+					// every path from the non-nil successor to a return passes the conversion
+					allConv := true
+					for _, ret := range core.Returns(fn) {
+						if core.Reachable(ret, core.ReachOpts{
+							CutEdge: func(f, to *ssa.BasicBlock) bool { return f == t.If.Block() && to == t.NilSucc },
+							Barrier: func(in ssa.Instruction) bool { return in == cv },
+						}) {
+							allConv = false
+						}
+						// the returned error is the cell
+						for ri := 0; ri < sig.Results().Len(); ri++ {
+							if core.IsErrorType(sig.Results().At(ri).Type()) {
+								rv, ok := core.Unwrap(ret.Results[ri]).(*ssa.UnOp)
+								if !ok || rv.X != ld.X {
+									allConv = false
+								}
+							}
+						}
+					}
+					if allConv {
+						onEdge = true
+					}
+				}
+			}
+			if !onEdge {
+				good, why = false, "a return is reachable with a non-nil host error that did not pass WrappedExternalError"
+			}
+		}
+		// the inner call's error is stored to the same cell
+		r.Check(good, rule, key, fn.Pos(), "WrapPanic + WrappedExternalError on the non-nil edge before every return", why)
+	}
+
 }
